@@ -446,13 +446,20 @@ func runCheck(id, tier, replay string) int {
 		if r.exit != 0 {
 			hasV := strings.Contains(r.log, "VIOLATION-CASE")
 			if !hasV {
-				if strings.Contains(r.log, "fatal error:") || strings.Contains(r.log, "panic:") || strings.Contains(r.log, "goroutine stack exceeds") {
+				if strings.Contains(r.log, "fatal error:") || strings.Contains(r.log, "goroutine stack exceeds") || strings.Contains(r.log, "unexpected signal") {
 					crashed = true
 				}
 				incomplete = append(incomplete, fmt.Sprintf("shard %d exited %d without a recorded violation", r.idx, r.exit))
-				tail := r.log
-				if len(tail) > 3000 {
-					tail = tail[len(tail)-3000:]
+				// drop rapid's draw log, keep what explains the failure
+				var keep []string
+				for _, l := range strings.Split(r.log, "\n") {
+					if !strings.Contains(l, "[rapid] draw") {
+						keep = append(keep, l)
+					}
+				}
+				tail := strings.Join(keep, "\n")
+				if len(tail) > 4000 {
+					tail = tail[:2000] + "\n…\n" + tail[len(tail)-2000:]
 				}
 				fmt.Printf("---- shard %d output (tail) ----\n%s\n", r.idx, tail)
 			}
